@@ -67,6 +67,10 @@ func Goroutines() { panic("intrinsic") }
 // current virtual time (natively: a short real sleep).
 func Quiesce() { panic("intrinsic") }
 
+// Yield is an explicit preemption point: the other goroutines run (each until it blocks), then the
+// caller continues (natively: a short real sleep).
+func Yield() { panic("intrinsic") }
+
 func Spawned() int                                              { panic("intrinsic") }
 func RunSpawned(k int) (blocked bool)                           { panic("intrinsic") }
 func DropSpawned()                                              { panic("intrinsic") }
